@@ -923,3 +923,154 @@ Proof.
     change (override (acc ++ [(k, t)]) (listing m) = acc ++ (k, t) :: m).
     rewrite IH; rewrite <- app_assoc; simpl; auto.
 Qed.
+
+(* ================================================================== find_parents *)
+
+Lemma msorted_nodup {V} (m : fmap V) : msorted m -> NoDup (mkeys m).
+Proof.
+  induction m as [|[k v] m IH]; intros Hs; simpl; constructor.
+  - intros Hin. pose proof (msorted_above _ _ _ Hs _ Hin) as H. rewrite name_cmp_refl in H. discriminate.
+  - apply IH. eapply msorted_tail; eauto.
+Qed.
+
+Lemma keys_mfind {V} (m : fmap V) k : In k (mkeys m) -> exists v, mfind k m = Some v.
+Proof.
+  intros H. destruct (mfind k m) eqn:E; eauto. apply mfind_none_keys in E. contradiction.
+Qed.
+
+Lemma In_mfind {V} (m : fmap V) k v : NoDup (mkeys m) -> In (k, v) m -> mfind k m = Some v.
+Proof.
+  induction m as [|[k1 v1] m IH]; intros Hnd Hin; [destruct Hin|].
+  simpl in Hnd. inversion Hnd as [|? ? Hni Hnd']; subst. simpl.
+  destruct Hin as [E|Hin].
+  - injection E as -> ->. rewrite name_eqb_refl. reflexivity.
+  - destruct (name_eqb k k1) eqn:E.
+    + apply name_eqb_eq in E. subst. exfalso. apply Hni. apply (in_map fst) in Hin. exact Hin.
+    + auto.
+Qed.
+
+Section Parents.
+  Variable pre : list name.
+  Variable m : smap.
+
+  (* the resolved extends relation: a partial function *)
+  Definition ext (x y : name) : Prop :=
+    exists t p, mfind x m = Some t /\ td_extends t = Some p /\ resolve pre m p = Some y.
+  Definition is_root (x : name) : Prop := exists t, mfind x m = Some t /\ td_extends t = None.
+  Definition is_dangling (x : name) : Prop :=
+    exists t p, mfind x m = Some t /\ td_extends t = Some p /\ resolve pre m p = None.
+
+  Lemma ext_fun x y z : ext x y -> ext x z -> y = z.
+  Proof. intros (t & p & H1 & H2 & H3) (t' & p' & H1' & H2' & H3'). congruence. Qed.
+
+  Lemma ext_in_keys x y : ext x y -> In y (mkeys m).
+  Proof. intros (t & p & _ & _ & H). eapply resolve_in_keys; eauto. Qed.
+
+  Lemma epath_app x l1 y l2 z : path ext x l1 y -> path ext y l2 z -> path ext x (l1 ++ l2) z.
+  Proof. induction 1; simpl; auto. intros. econstructor; eauto. Qed.
+
+  Lemma epath_snoc x l y z : path ext x l y -> ext y z -> path ext x (l ++ [z]) z.
+  Proof. intros Hp He. eapply epath_app; eauto. econstructor; eauto. constructor. Qed.
+
+  Lemma epath_in_keys x l y : path ext x l y -> incl l (mkeys m).
+  Proof.
+    induction 1 as [|x y l z He Hp IH]; intros w Hw; [destruct Hw|].
+    destruct Hw as [<-|Hw]; auto. eapply ext_in_keys; eauto.
+  Qed.
+
+  (* what each outcome of the walk means, in terms of the relation alone *)
+  Definition fp_spec (start : name) (r : rres (list name)) : Prop :=
+    match r with
+    | Ok ps => exists u, path ext start (rev ps) u /\ is_root u /\ NoDup (start :: ps)
+    | Err EkMissingParent =>
+        exists l u, path ext start l u /\ NoDup (start :: l) /\ is_dangling u
+    | Err EkCircularExtend =>
+        exists l u r, path ext start l u /\ NoDup (start :: l) /\ ext u r /\ In r (start :: l)
+    | Err EkFuel => True
+    | Err _ => False
+    end.
+
+  Lemma find_parents_sound fuel start : forall cn cur parents,
+    mfind cn m = Some cur -> path ext start parents cn -> NoDup (start :: parents) ->
+    fp_spec start (find_parents fuel pre m start cur parents).
+  Proof.
+    induction fuel as [|f IH]; intros cn cur parents Hc Hp Hnd; simpl; [exact I|].
+    destruct (td_extends cur) as [p|] eqn:Ee.
+    - destruct (resolve pre m p) as [r|] eqn:Er.
+      + assert (ext cn r) as Hext by (exists cur, p; auto).
+        destruct (name_eqb r start || nmem r parents) eqn:Eb.
+        * simpl. exists parents, cn, r. repeat split; auto.
+          apply orb_true_iff in Eb. destruct Eb as [Eb|Eb].
+          -- apply name_eqb_eq in Eb. subst. simpl. auto.
+          -- apply nmem_In in Eb. simpl. auto.
+        * apply orb_false_iff in Eb. destruct Eb as [Eb1 Eb2].
+          destruct (keys_mfind m r (resolve_in_keys _ _ _ _ Er)) as [pt Hpt]. rewrite Hpt.
+          apply (IH r pt (parents ++ [r])); auto.
+          -- eapply epath_snoc; eauto.
+          -- apply name_eqb_neq in Eb1.
+             assert (~ In r parents) as Hni by (rewrite <- nmem_In; congruence).
+             inversion Hnd as [|? ? Hs Hnd']; subst.
+             constructor.
+             ++ intros Hin. apply in_app_or in Hin. destruct Hin as [Hin|[Hin|[]]]; auto.
+             ++ apply NoDup_snoc; auto.
+      + simpl. exists parents, cn. repeat split; auto. exists cur, p. auto.
+    - simpl. exists cn. rewrite rev_involutive. repeat split; auto.
+      + exists cur. auto.
+      + inversion Hnd as [|? ? Hs Hnd']; subst. constructor.
+        * rewrite <- in_rev. exact Hs.
+        * apply NoDup_rev. exact Hnd'.
+  Qed.
+
+  (* fuel: parents never repeats, so its length is below the number of templates *)
+  Lemma find_parents_fuel fuel start : forall cn cur parents,
+    mfind cn m = Some cur -> path ext start parents cn -> NoDup (start :: parents) ->
+    In start (mkeys m) -> NoDup (mkeys m) ->
+    length m < fuel + length (start :: parents) ->
+    find_parents fuel pre m start cur parents <> Err EkFuel.
+  Proof.
+    induction fuel as [|f IH]; intros cn cur parents Hc Hp Hnd Hs Hk Hlen.
+    - exfalso. assert (incl (start :: parents) (mkeys m)) as Hincl.
+      { intros w [<-|Hw]; auto. eapply epath_in_keys; eauto. }
+      pose proof (NoDup_incl_length Hnd Hincl) as Hle. unfold mkeys in Hle. rewrite map_length in Hle.
+      simpl in *. lia.
+    - simpl. destruct (td_extends cur) as [p|] eqn:Ee; [|discriminate].
+      destruct (resolve pre m p) as [r|] eqn:Er; [|discriminate].
+      destruct (name_eqb r start || nmem r parents) eqn:Eb; [discriminate|].
+      apply orb_false_iff in Eb. destruct Eb as [Eb1 Eb2].
+      destruct (keys_mfind m r (resolve_in_keys _ _ _ _ Er)) as [pt Hpt]. rewrite Hpt.
+      assert (ext cn r) as Hext by (exists cur, p; auto).
+      apply (IH r pt (parents ++ [r])); auto.
+      + eapply epath_snoc; eauto.
+      + apply name_eqb_neq in Eb1.
+        assert (~ In r parents) as Hni by (rewrite <- nmem_In; congruence).
+        inversion Hnd as [|? ? Hs' Hnd']; subst. constructor.
+        * intros Hin. apply in_app_or in Hin. destruct Hin as [Hin|[Hin|[]]]; auto.
+        * apply NoDup_snoc; auto.
+      + simpl. rewrite app_length. simpl in *. lia.
+  Qed.
+
+  (* completeness for the chain: every target resolves, nothing repeats => the chain, root first *)
+  Lemma find_parents_complete start : forall l2 fuel cn cur parents u,
+    mfind cn m = Some cur -> path ext cn l2 u -> is_root u ->
+    NoDup (start :: parents ++ l2) -> length l2 < fuel ->
+    find_parents fuel pre m start cur parents = Ok (rev (parents ++ l2)).
+  Proof.
+    induction l2 as [|y l2 IH]; intros fuel cn cur parents u Hc Hp Hr Hnd Hf;
+      (destruct fuel as [|f]; [simpl in Hf; lia|]); simpl.
+    - inversion Hp; subst. destruct Hr as (t & Ht & He). rewrite Hc in Ht. injection Ht as <-.
+      rewrite He, app_nil_r. reflexivity.
+    - inversion Hp as [|? ? ? ? Hext Hp']; subst.
+      destruct Hext as (t & p & Ht & He & Hres). rewrite Hc in Ht. injection Ht as <-.
+      rewrite He, Hres.
+      assert (name_eqb y start || nmem y parents = false) as ->.
+      { apply orb_false_iff. inversion Hnd as [|? ? Hs Hnd']; subst. split.
+        - apply name_eqb_neq. intros ->. apply Hs. apply in_or_app. right. simpl. auto.
+        - destruct (nmem y parents) eqn:E; auto. apply nmem_In in E. exfalso.
+          apply NoDup_remove_2 in Hnd'. apply Hnd'. apply in_or_app. auto. }
+      destruct (keys_mfind m y (resolve_in_keys _ _ _ _ Hres)) as [pt Hpt]. rewrite Hpt.
+      rewrite (IH f y pt (parents ++ [y]) u); auto.
+      + rewrite <- app_assoc. reflexivity.
+      + rewrite <- app_assoc. exact Hnd.
+      + simpl in Hf. lia.
+  Qed.
+End Parents.
